@@ -124,3 +124,47 @@ Theorem identity_to_mutates_self_refuted :
 Proof. exists [{| c_op := OIdentityTo; c_args := [RCaller [0]]; c_adata := fun _ => 0; c_wdata := fun _ => 1 |}],
               [mkcell nat true 0], 0, (mkcell nat true 0).
   split; [reflexivity|]. split; [reflexivity|]. vm_compute. discriminate. Qed.
+
+(* ---------------- in-place accumulation inside a product ----------------
+   Sum._matmat, KronSum._matmat (operators.py), the running sums of exact_diag / Hutchinson: `acc = <start>; acc += term`.
+   The accumulator is either a buffer allocated by the call (KronSum: `out = 0 * ev`; Python's sum(): `0 + first`)
+   or - the variant this section rules out - the FIRST term itself. A term is the product of a child with (a view of)
+   the operand, so by the aliasing signature of that child (alias_mm: Identity returns its argument, Product / Kronecker
+   of such children may) the first term may BE the caller's operand, and `+=` then writes caller-owned memory. *)
+Inductive acc_start := AccFresh | AccFirstTerm.
+(* write set of the accumulation in `A @ X` for a sum-like node with children ms (argument 1 = the operand X) *)
+Definition accumulate_writes (start : acc_start) (ms : list ktree) : list src :=
+  match start, ms with
+  | AccFresh, _ => [Fresh 0]
+  | AccFirstTerm, [] => [Fresh 0]
+  | AccFirstTerm, first :: _ => match alias_mm first with No => [Fresh 0] | _ => [Fresh 0; Arg 1] end
+  end.
+Definition sig_accumulate (start : acc_start) (ms : list ktree) : opsig :=
+  {| n_alloc := 1; wr := accumulate_writes start ms;
+     rs := match start, ms with
+           | AccFirstTerm, first :: _ => match alias_mm first with No => [Fresh 0] | _ => [Fresh 0; Arg 1] end
+           | _, _ => [Fresh 0] end |}.
+
+(* with a fresh accumulator (the code as it stands) the product of any sum-like node with a caller-owned operand is
+   accepted by the taint analysis, whatever the children are *)
+Lemma accumulate_fresh_ok : forall (D : Type) (ms : list ktree) (env : list bool) (args : list ref) (ad wd : nat -> D),
+  step_ok D env {| psg := sig_accumulate AccFresh ms; pargs := args; padata := ad; pwdata := wd |} = true.
+Proof. intros. reflexivity. Qed.
+
+(* accumulating into the first term is rejected as soon as the first child may return its argument and the operand is
+   the caller's: KronSum(Identity, B) @ x, Sum(Identity, B) @ x, ... *)
+Lemma accumulate_first_term_rejected : forall (D : Type) (first : ktree) (rest : list ktree) (A x : handle) (ad wd : nat -> D),
+  alias_mm first <> No ->
+  step_ok D [] {| psg := sig_accumulate AccFirstTerm (first :: rest); pargs := [RCaller A; RCaller x]; padata := ad; pwdata := wd |} = false.
+Proof. intros D first rest A x ad wd H. unfold step_ok. cbn [psg pargs sig_accumulate wr accumulate_writes].
+  destruct (alias_mm first); [congruence| |]; reflexivity. Qed.
+
+(* and the rejection is not an artefact of the analysis: executing that step does change the caller's operand *)
+Theorem accumulate_first_term_writes_caller :
+  exists (st : store nat) (p : pstep nat) (j : nat) (c : cell nat),
+    psg nat p = sig_accumulate AccFirstTerm [KIdent; KDense] /\
+    nth_error st j = Some c /\ caller_owned nat c = true /\ nth_error (prun nat [p] [] st) j <> Some c.
+Proof. exists [mkcell nat true 10; mkcell nat true 20],
+              {| psg := sig_accumulate AccFirstTerm [KIdent; KDense]; pargs := [RCaller [0]; RCaller [1]]; padata := fun _ => 0; pwdata := fun _ => 99 |},
+              1, (mkcell nat true 20).
+  split; [reflexivity|]. split; [reflexivity|]. split; [reflexivity|]. vm_compute. discriminate. Qed.
